@@ -843,7 +843,38 @@ func c15EmptyForms(c *Ctx, rule string) {
 						allNil := len(rets) > 0
 						for _, rt := range rets {
 							rv := retVals(rt)
-							if !isNilConst(rv[len(rv)-1]) {
+							last := rv[len(rv)-1]
+							if isNilConst(last) {
+								continue
+							}
+							// a joined error: its value on the edges that can be reached from the test's success
+							okPhi := false
+							if ph, isPhi := last.(*ssa.Phi); isPhi {
+								reach := map[*ssa.BasicBlock]bool{}
+								var walk func(x *ssa.BasicBlock)
+								walk = func(x *ssa.BasicBlock) {
+									if reach[x] || x == ph.Block() {
+										return
+									}
+									reach[x] = true
+									for _, sc := range x.Succs {
+										walk(sc)
+									}
+								}
+								walk(iff.Block().Succs[0])
+								n := 0
+								okPhi = true
+								for pi, pr := range ph.Block().Preds {
+									if reach[pr] {
+										n++
+										if !isNilConst(ph.Edges[pi]) {
+											okPhi = false
+										}
+									}
+								}
+								okPhi = okPhi && n > 0
+							}
+							if !okPhi {
 								allNil = false
 							}
 						}
